@@ -275,6 +275,9 @@ func illFittingHooks() []*scen.Scenario {
 		add("unexportedext", "", "ext.convHidden", nil, false)
 		add("unknownpkg", "", "nopkg.Hook", nil, false)
 		add("variadic", "func h(d *B, s *A, more ...int) {}\n", "h", nil, false)
+		// repaired in 24f5e58: a variadic parameter ...T receives ONE argument, so an additional argument of type
+		// []T does not fit it (the call hook(dst, src, arg) does not compile)
+		add("variadicslice", "func h(d *B, s *A, more ...string) {}\n", "h", []scen.Param{{Type: "[]string"}}, false)
 		add("scalar", "func h(d int, s string) {}\n", "h", nil, false)
 		// an additional parameter that differs from the method's argument by one level of pointer (the
 		// arguments are passed on verbatim), in both directions
